@@ -10,7 +10,7 @@ use serde_json::Value;
 pub fn def() -> PropDef {
     PropDef {
         id: "C05",
-        rule: "inputs: (a) valid PWB v2 payloads (single-channel, few-channel, random and full 79-channel masks; requested samples 0,1,2,3,100,510,511 and random; odd/even padding; every header field free) with 0-3 one-rule mutations (any header byte, masks, block channel/size/padding/order, end marker, missing/extra bytes) and byte edits; the largest packets of the format (60-79 channels x 400-511 samples, 48-81 KB); one case in three also decoded as the first packet of a fresh thread; (b) systematically all 79 single-channel masks x requested{0,1,2,3,510,511} and all 256 values of the chip, compression, trigger and version bytes; oracle: reference validator agrees on accept/reject; sent/over-threshold lists = set bits ascending through the reference readout table; waveform_at = block samples for sent channels and None for all others; scalar accessors = little-endian fields; re-encoding reproduces the input; non-trivial = accepted with >= 1 channel, or rejected with <= 1 mutation; distinct by byte hash",
+        rule: "inputs: (a) valid PWB v2 payloads (single-channel, few-channel, random and full 79-channel masks; requested samples 0,1,2,3,100,510,511 and random; odd/even padding; every header field free) with 0-3 one-rule mutations (any header byte, masks, block channel/size/padding/order, end marker, missing/extra bytes) and byte edits; the largest packets of the format (60-79 channels x 400-511 samples, 48-81 KB); one case in three also decoded as the first packet of a fresh thread; (b) systematically all 79 single-channel masks x requested{0,1,2,3,510,511} and all 256 values of the chip, compression, trigger and version bytes; oracle: reference validator agrees on accept/reject; sent/over-threshold lists = set bits ascending through the reference readout table; waveform_at = block samples for sent channels and None for all others, asked in ascending order, in a second pass, in descending and in scattered order on the same packet object; scalar accessors = little-endian fields; re-encoding reproduces the input; non-trivial = accepted with >= 1 channel, or rejected with <= 1 mutation; distinct by byte hash",
         assumptions: &["the reference validator (oracles::pwb::ref_pwb) transcribes the rule list of the property statement"],
         run,
         replay,
